@@ -26,7 +26,8 @@ let canon (es : (string * string) list) = List.map (fun (k, v) -> (k, atoms v)) 
 
 type out = { adds : bool list; result : (string * string) list option; late_add : bool; late_write : bool;
              nspills : int; templates : string list; calls : int; spills_after_add : int list;
-             after_seek : (string * (string * string) list) option (* seek target, entries delivered after the seek *) }
+             after_seek : (string * (string * string) list) option (* seek target, entries delivered after the seek *);
+             history : (string option * (string * string) option) list (* then: next (None) / seek target, what next returned *) }
 
 let run_impl ~(ops : (string * string) list) ~maxmem ~pool ~use_write ~fail_at ~tmp : child_end =
   in_child (fun () ->
@@ -38,6 +39,7 @@ let run_impl ~(ops : (string * string) list) ~maxmem ~pool ~use_write ~fail_at ~
     let spills = ref [] in
     let adds = List.map (fun (k, v) -> let r = c_sorter_add s k v in spills := c_mkstemp_count () :: !spills; r) ops in
     let after_seek = ref None in
+    let history = ref [] in
     let result, late_add, late_write =
       if use_write then begin
         let path = Filename.concat tmp (Printf.sprintf "so_out_%d.mtbl" (Unix.getpid ())) in
@@ -85,7 +87,31 @@ let run_impl ~(ops : (string * string) list) ~maxmem ~pool ~use_write ~fail_at ~
                let continue = ref true in
                while !continue do match Rd.c_iter_next it with Some e -> out2 := e :: !out2 | None -> continue := false done;
                after_seek := Some (target, List.rev !out2)
-             end else after_seek := Some (target ^ " (seek failed)", []));
+             end else after_seek := Some (target ^ " (seek failed)", []);
+             (* then a history of next / seek calls on the same iterator, forwards and backwards, several seeks in a row
+                (a forward seek that only runs lagging chunks off their end, followed by a seek back): chosen from the
+                keys added, their neighbours and keys past the end, by a generator seeded from the add sequence *)
+             let st = Random.State.make [| Hashtbl.hash ops; List.length ops |] in
+             let karr = Array.of_list ("" :: "\255\255" :: List.concat_map (fun k -> [ k; k ^ "\000"; (if k = "" then k else String.sub k 0 (String.length k - 1)) ]) keys) in
+             let first = List.hd keys in
+             if Rd.c_iter_seek it first then begin
+               for _ = 1 to 14 do
+                 if Random.State.int st 5 < 2 then begin
+                   let t = karr.(Random.State.int st (Array.length karr)) in
+                   if Rd.c_iter_seek it t then history := (Some t, None) :: !history
+                 end else history := (None, Rd.c_iter_next it) :: !history
+               done;
+               (* directed: back to the start, one next, a forward seek just past the j-th key (for a sorted add sequence
+                  some j is the end of the first chunk: the seek moves nothing but runs that chunk off its end), a seek
+                  back to the second key, next *)
+               let nk = List.length keys in
+               if nk >= 3 then
+                 List.iter (fun j ->
+                   let seek t = if Rd.c_iter_seek it t then history := (Some t, None) :: !history in
+                   let next () = history := (None, Rd.c_iter_next it) :: !history in
+                   seek first; next (); seek (List.nth keys j ^ "\000"); seek (List.nth keys 1); next (); next ())
+                   (List.sort_uniq compare (List.filter (fun j -> j >= 1 && j < nk) ([ 1; 2; 3; 4; 5; 6; 7; 8; nk / 4; nk / 3; nk / 2; 2 * nk / 3; 3 * nk / 4; nk - 2; nk - 1 ])))
+             end);
           Rd.c_iter_destroy it;
           (Some (List.rev !out), la, false)
         end
@@ -95,7 +121,7 @@ let run_impl ~(ops : (string * string) list) ~maxmem ~pool ~use_write ~fail_at ~
     c_sorter_destroy s;
     if pool <> 0 then Wr.c_pool_destroy p;
     Mg.c_merge_clos_free mc;
-    "DONE" ^ Marshal.to_string { adds; result; late_add; late_write; nspills = n; templates; calls = 0; spills_after_add = List.rev !spills; after_seek = !after_seek } [])
+    "DONE" ^ Marshal.to_string { adds; result; late_add; late_write; nspills = n; templates; calls = 0; spills_after_add = List.rev !spills; after_seek = !after_seek; history = List.rev !history } [])
 
 let hangs = ref 0
 let check acc ~klass ~(ops : (string * string) list) ~maxmem ~pool ~use_write ~fail_at =
@@ -173,6 +199,23 @@ let check acc ~klass ~(ops : (string * string) list) ~maxmem ~pool ~use_write ~f
             fail acc ~kind:"spec_violation" ~what:((if pool <> 0 then "[C06,C05,C13]" else "[C06,C05]") ^ " after mtbl_iter_seek on the sorter's iterator the entries delivered are not exactly those with key >= target, in order")
               (JO [ "case", casej (); "target", jbytes target; "got", entries_json out2 ])
         | None -> ());
+       (* the next / seek history that followed (it began with a seek to the first key): a cursor over the expected output *)
+       (match (match o.result with Some _ -> o.history | None -> []) with
+        | [] -> ()
+        | h ->
+          bump acc "next_seek_history_on_sorter_iterator";
+          let cur = ref expect in
+          (try List.iteri (fun i (op, r) ->
+               match op with
+               | Some t -> cur := List.filter (fun (k, _) -> compare k t >= 0) expect
+               | None ->
+                 let want_e = (match !cur with e :: tl -> cur := tl; Some e | [] -> None) in
+                 if (match r with Some e -> Some (List.hd (canon [ e ])) | None -> None) <> want_e then begin
+                   fail acc ~kind:"spec_violation" ~what:((if pool <> 0 then "[C06,C05,C13]" else "[C06,C05]") ^ " in a next/seek history on the sorter's iterator a call of next does not deliver the first entry at or after the last seek target, then its successors")
+                     (JO [ "case", casej (); "step", JI i;
+                           "history", JL (List.map (fun (op, r) -> match op with Some t -> JO [ "seek", jbytes t ] | None -> (match r with Some (k, _) -> JO [ "next", jbytes k ] | None -> JS "next: end")) h) ]);
+                   raise Exit end) h
+           with Exit -> ()));
        if o.late_add then fail acc ~kind:"spec_violation" ~what:"[C06] mtbl_sorter_add accepted after iteration had begun" (casej ());
        if o.late_write then fail acc ~kind:"spec_violation" ~what:"[C06] mtbl_sorter_write accepted after iteration had begun" (casej ());
        (* spill bound (specification): with no pool a spill is synchronous; after every add the entries buffered
